@@ -636,3 +636,14 @@ func (eng *Engine) sortedTypeIDs() []int {
 	sort.Ints(ids)
 	return ids
 }
+
+// displayName is the name used for a function in obligation names: closures assigned to a local variable are
+// called by that variable's name (stable when closures are added or reordered), not by their ordinal.
+func (eng *Engine) displayName(fn *ssa.Function) string {
+	if par := fn.Parent(); par != nil {
+		if n := closureVarName(par, fn); n != "" {
+			return n
+		}
+	}
+	return shortFuncName(fn)
+}
